@@ -43,6 +43,30 @@ class PipelineError(Exception):
     pass
 
 
+class MemBudget:
+    """admission control for solver processes: a job declares the memory its CBMC processes need (Job.mem_gb per process);
+    run_cbmc waits until that much of the budget is free, so that a tier with many heavy jobs does not run the machine out of
+    memory (a killed solver would be reported as BROKEN/INCONCLUSIVE, never as success -- but it would be noise)"""
+    def __init__(self, total):
+        self.total, self.used, self.cv = total, 0, threading.Condition()
+
+    def acquire(self, n):
+        n = min(n, self.total)
+        with self.cv:
+            while self.used + n > self.total:
+                self.cv.wait()
+            self.used += n
+        return n
+
+    def release(self, n):
+        with self.cv:
+            self.used -= n
+            self.cv.notify_all()
+
+
+MEM = MemBudget(float(os.environ.get('VP_MEM_GB', '44')))
+
+
 def run(cmd, cwd=None, timeout=None, env=None, stdin=None):
     t0 = time.time()
     try:
@@ -76,7 +100,7 @@ class Job:
 
     def __init__(self, prop, name, src, defs=None, link=(), models=(), opt='inline', unwind=2, unwindset=None,
                  solver='minisat', timeout=300, shape='K', extra=(), bounds='', nochk=False, objbits=None,
-                 depth=None, stubs=None, skip_ctors=(), noop_stubs=(), rtti=False, noop_containing=(), devirt_exclude=()):
+                 depth=None, stubs=None, skip_ctors=(), noop_stubs=(), rtti=False, noop_containing=(), devirt_exclude=(), mem_gb=1.5):
         self.prop, self.name, self.src = prop, name, src
         self.defs = dict(defs or {})
         self.link = list(link)
@@ -93,6 +117,7 @@ class Job:
         self.skip_ctors = list(skip_ctors)
         # virtual-call candidates dropped by name; checked, not assumed (an excluded real target fails the slot check)
         self.devirt_exclude = list(devirt_exclude)
+        self.mem_gb = mem_gb   # expected peak memory of ONE cbmc process of this job (admission control, MemBudget)
         # functions of the code under test replaced by an empty body in the SYMBOLIC build only (stated per harness as outside
         # the claim; the harness must make their native effects unobservable)
         self.noop_stubs = list(noop_stubs)
@@ -244,6 +269,13 @@ class Job:
         solvers = self.solver if isinstance(self.solver, (list, tuple)) else [self.solver]
         timeout = timeout or self.timeout
         procs = []
+        held = MEM.acquire(self.mem_gb * len(solvers))
+        try:
+            return self._run_cbmc_admitted(witness, timeout, solvers, procs)
+        finally:
+            MEM.release(held)
+
+    def _run_cbmc_admitted(self, witness, timeout, solvers, procs):
         t0 = time.time()
         for sv in solvers:
             cmd = self.cbmc_cmd(witness=witness, solver=sv)
